@@ -551,17 +551,17 @@ def buildMessage (frames : List Frame) : M Msg := fun s =>
 /-- `WebSocket._on_close(message)` -/
 def onClose (code : Option Nat) (reason : List Nat) : M Unit := do
   match code with
-  | some c => if isInvalidCode c then throwE (.protocol s!"reserved close code ({c})")
+  | some c => if isInvalidCode c then throwE (.protocol s!"reserved close code ({c})") else pure ()
   | none => pure ()
   let s ← getS
-  if s.closed then return
-  if s.closing then
+  if s.closed then pure ()
+  else if s.closing then do
     feedYield true (.closed code reason)
     modS fun s => { s with closing := false, closed := true }
-  else
+  else do
     feedYield true (.closing code reason)
     let r ← wsClose code (.str reason)
-    if r = .valueError ∨ r = .structError ∨ r = .typeError then throwE (.other "error")
+    if r = .valueError ∨ r = .structError ∨ r = .typeError then throwE (.other "error") else pure ()
     modS fun s => { s with closing := true }
 
 /-- dispatch of one message in `WebSocket.feed` -/
@@ -574,43 +574,50 @@ def onMessage (m : Msg) : M Unit :=
   | .text t => feedYield true (.text t)
   | .unknown => pure ()
 
+/-- `if self.is_closed: break` -/
+def notClosed : M Bool := fun s => .ok (!s.closed) s
+
+/-- a data frame in `WebsocketStream.feed` -/
+def onDataFrame (f : Frame) : M Unit := do
+  let s ← getS
+  if f.isContinuation ∧ s.frames = [] then
+    throwE (.protocol "continuation frame has nothing to continue")
+  else if ¬ f.isContinuation ∧ s.frames ≠ [] then
+    throwE (.protocol "continuation frame expected")
+  else do
+    modS fun s => { s with frames := s.frames ++ [f] }
+    if f.fin ≠ 0 then do
+      let s ← getS
+      let m ← buildMessage s.frames
+      onMessage m
+      modS fun s => { s with frames := [] }
+    else pure ()
+
 /-- one parser output through stream + websocket; result: keep iterating? -/
-def onOut (o : Out) : M Bool := do
+def onOut (o : Out) : M Bool :=
   match o with
-  | .header data =>
-    let resp := Http.parseResponse data
+  | .header data => do
     let s ← getS
-    match Http.onResponse s.cfg.v.strictAccept s.cfg.challenge resp with
-    | .error reason =>
+    match Http.onResponse s.cfg.v.strictAccept s.cfg.challenge (Http.parseResponse data) with
+    | .error reason => do
       modS fun s => { s with parsedResponse := true }
       onDisconnect
       feedYield true (.rejected reason)
-      return false
-    | .ok acc =>
+      pure false
+    | .ok acc => do
       modS fun s => { s with
         compression := acc.deflate
         decompress := acc.deflate.isSome
         p := if acc.deflate.isSome then { s.p with compression := true } else s.p }
       feedYield true (.ready acc.protocol acc.deflate.isSome)
       modS fun s => { s with parsedResponse := true }
-  | .frame f =>
-    if f.isControl then
+      notClosed
+  | .frame f => do
+    if f.isControl then do
       let m ← buildMessage [f]
       onMessage m
-    else
-      let s ← getS
-      if f.isContinuation ∧ s.frames = [] then
-        throwE (.protocol "continuation frame has nothing to continue")
-      if ¬ f.isContinuation ∧ s.frames ≠ [] then
-        throwE (.protocol "continuation frame expected")
-      modS fun s => { s with frames := s.frames ++ [f] }
-      if f.fin ≠ 0 then
-        let s ← getS
-        let m ← buildMessage s.frames
-        onMessage m
-        modS fun s => { s with frames := [] }
-  let s ← getS
-  return ¬ s.closed
+    else onDataFrame f
+    notClosed
 
 def liftE (r : Except Exn α) : M α := fun s =>
   match r with
@@ -680,71 +687,77 @@ def feedBody (data : Bytes) : M Unit := do
   else
     let _ ← feedLoop data
 
+/-- the `except` clauses of `WebSocket.feed` -/
+def feedHandler (x : Exn) : M Unit :=
+  match x with
+  | .parse msg => do       -- stream: ParseError ⇒ CriticalProtocolError(text)
+    feedYield false (.protocolError msg true)
+    throwE (.forceDisconnect "forced")
+  | .critical msg => do
+    feedYield false (.protocolError msg true)
+    throwE (.forceDisconnect "forced")
+  | .protocol msg => do
+    feedYield false (.protocolError msg false)
+    let r ← wsClose (some Gen.statusProtocolError) (.str (Http.ofString msg))
+    if r = .valueError ∨ r = .structError ∨ r = .typeError then throwE (.other "error") else pure ()
+    throwE (.forceDisconnect "forced")
+  | y => throwE y
+
+/-- exceptions raised in `run()`'s frame at a `yield` of `feed` leave `feed` untouched -/
+def unwrapOuter (x : Exn) : M Unit :=
+  match x with
+  | .outer y => throwE y
+  | y => throwE y
+
 /-- `WebSocket.feed(data)` -/
-def wsFeed (data : Bytes) : M Unit := do
-  let s ← getS
-  if s.closed then return
-  tryC (tryC (feedBody data) fun x =>
-    match x with
-    | .parse msg => do       -- stream: ParseError ⇒ CriticalProtocolError(text)
-      feedYield false (.protocolError msg true)
-      throwE (.forceDisconnect "forced")
-    | .critical msg => do
-      feedYield false (.protocolError msg true)
-      throwE (.forceDisconnect "forced")
-    | .protocol msg => do
-      feedYield false (.protocolError msg false)
-      let r ← wsClose (some Gen.statusProtocolError) (.str (Http.ofString msg))
-      if r = .valueError ∨ r = .structError ∨ r = .typeError then throwE (.other "error")
-      throwE (.forceDisconnect "forced")
-    | y => throwE y) fun x =>
-      match x with
-      | .outer y => throwE y
-      | y => throwE y
+def wsFeed (data : Bytes) : M Unit := fun s =>
+  if s.closed then .ok () s
+  else tryC (tryC (feedBody data) feedHandler) unwrapOuter s
 
 /-! ### session.run -/
 
 /-- `for event in _regular(): yield event` at the top of a loop cycle (outside `feed`) -/
 def regularTop : M Unit := regular
 
-def recvStep (o : RecvOutcome) : M Bool := do   -- result: keep looping?
-  let s ← getS
-  if ¬ s.sockOpen then
-    -- `_recv` returns b'' when the socket is gone
-    if ¬ s.closing ∧ ¬ s.closed then throwE (.socketFail "connection-lost")
-    return false
-  match o with
-  | .sockErr => throwE (.socketFail "recv-fail")
-  | .otherErr => throwE (.other "error")
-  | .eof =>
-    if ¬ s.closing ∧ ¬ s.closed then throwE (.socketFail "connection-lost")
-    return false
-  | .data bs =>
-    if bs = [] then
-      if ¬ s.closing ∧ ¬ s.closed then throwE (.socketFail "connection-lost")
-      return false
-    wsFeed bs
-    return true
+/-- `data = self._recv(max_bytes)` was empty: connection lost unless a closing handshake is under way -/
+def onEof : M Bool := fun s =>
+  if ¬ s.closing ∧ ¬ s.closed then .err (.socketFail "connection-lost") s else .ok false s
+
+def recvStep (o : RecvOutcome) : M Bool := fun s =>   -- result: keep looping?
+  if ¬ s.sockOpen then onEof s          -- `_recv` returns b'' when the socket is gone
+  else
+    match o with
+    | .sockErr => .err (.socketFail "recv-fail") s
+    | .otherErr => .err (.other "error") s
+    | .eof => onEof s
+    | .data bs =>
+      if bs = [] then onEof s
+      else
+        match wsFeed bs s with
+        | .ok _ s' => .ok true s'
+        | .err x s' => .err x s'
 
 /-- the `while not websocket.is_closed` loop; consumes the environment script -/
 def loop : List EnvStep → M Unit
-  | [] => do
-    let s ← getS
-    if s.closed then pure () else throwE .scriptEnd
-  | step :: rest => do
-    let s ← getS
-    if s.closed then return
-    match step with
-    | .selErr => throwE (.other "error")
-    | .wait dt readable =>
-      modS fun s => { s with now := s.now + dt,
-                               trace := if dt ≠ 0 then .tick (s.now + dt) :: s.trace else s.trace }
-      regularTop
-      match readable with
-      | none => loop rest
-      | some o =>
-        let go ← recvStep o
-        if go then loop rest
+  | [] => fun s => if s.closed then .ok () s else .err .scriptEnd s
+  | step :: rest => fun s =>
+    if s.closed then .ok () s
+    else
+      match step with
+      | .selErr => .err (.other "error") s
+      | .wait dt readable =>
+        let s1 := { s with now := s.now + dt,
+                           trace := if dt ≠ 0 then .tick (s.now + dt) :: s.trace else s.trace }
+        match regularTop s1 with
+        | .err x s2 => .err x s2
+        | .ok _ s2 =>
+          match readable with
+          | none => loop rest s2
+          | some o =>
+            match recvStep o s2 with
+            | .err x s3 => .err x s3
+            | .ok true s3 => loop rest s3
+            | .ok false s3 => .ok () s3
 
 def selClose : M Unit := fun s =>
   if s.selOpen then .ok () { s with selOpen := false, trace := .selClose :: s.trace } else .ok () s
